@@ -89,31 +89,33 @@ type e1TaskData struct {
 }
 
 type e1Run struct {
-	c             E1Case
-	s             *sched.Sched
-	tr            *mock.Transport
-	ex            *mock.SchedExec
-	ch            netty.Channel
-	pl            netty.Pipeline
-	parent        context.Context
-	pcancel       context.CancelFunc
-	calls         []*e1Call
-	byID          map[int]*e1Call
-	tasks         []*sched.Task
-	live          map[int]context.CancelFunc // call id -> cancel of its live context
-	liveCtx       []context.CancelFunc
-	hooks         map[string]int
-	futile        int
-	release       bool
-	cls           *core.ClassSet
-	maxQ          int
-	lockContended bool
-	probe         *e1Probe
-	incon         string
-	closeCalls    []*e1Call
-	bound         int // max over steps of (successful returned calls - packets written)
-	noDrain       bool
-	inbound       int
+	c                  E1Case
+	s                  *sched.Sched
+	tr                 *mock.Transport
+	ex                 *mock.SchedExec
+	ch                 netty.Channel
+	pl                 netty.Pipeline
+	parent             context.Context
+	pcancel            context.CancelFunc
+	calls              []*e1Call
+	byID               map[int]*e1Call
+	tasks              []*sched.Task
+	live               map[int]context.CancelFunc // call id -> cancel of its live context
+	liveCtx            []context.CancelFunc
+	hooks              map[string]int
+	futile             int
+	release            bool
+	cls                *core.ClassSet
+	maxQ               int
+	lockContended      bool
+	probe              *e1Probe
+	incon              string
+	closeCalls         []*e1Call
+	bound              int // max over steps of (successful returned calls - packets written)
+	noDrain            bool
+	inbound            int
+	closeOverlapSender bool
+	closerSawSenderAt  map[string]bool
 }
 
 var e1cur *e1Run
@@ -194,15 +196,28 @@ func (r *e1Run) hook(ch netty.Channel, where string) {
 			return ok
 		}
 	case "close.wait":
+		// the closer may proceed when the sender is quiescent (idle and nothing queued);
+		// polling earlier is "futile" (a real 100 ms sleep) and budgeted per case
 		pred = func() bool {
 			st, _ := netty.VerifState(ch)
-			return !st.Running || r.futile > 0
+			return (!st.Running && st.QueueLen == 0) || r.futile > 0
 		}
 	case "enqueue.after":
 		for _, st := range r.senders() {
 			switch st.Label() {
 			case "send.beforeFlush", "t.flush", "send.beforeRelease", "send.afterRelease":
 				r.cls.Add("enqueue-in-release-window")
+			}
+		}
+	}
+	if strings.HasPrefix(where, "close.") {
+		for _, st := range r.senders() {
+			if !st.Done() {
+				r.closeOverlapSender = true
+				if r.closerSawSenderAt == nil {
+					r.closerSawSenderAt = map[string]bool{}
+				}
+				r.closerSawSenderAt[st.Label()] = true
 			}
 		}
 	}
@@ -217,7 +232,7 @@ func (r *e1Run) hook(ch netty.Channel, where string) {
 			td.call.CtxDoneThen = td.ctx != nil && td.ctx.Err() != nil
 		}
 	case "close.wait":
-		if st, _ := netty.VerifState(ch); st.Running {
+		if st, _ := netty.VerifState(ch); st.Running || st.QueueLen > 0 {
 			r.futile--
 			r.cls.Add("futile-close-poll")
 		}
@@ -605,7 +620,7 @@ func (r *e1Run) sweep(closeChannel bool) {
 	e1cur = r
 	defer func() { e1cur = nil }()
 	r.release = true
-	r.futile = 1 << 20
+	r.futile = 0 // the closer continues only once the sender is quiescent
 	if err := r.s.Drain(); err != nil && r.incon == "" {
 		r.incon = "sweep: " + err.Error()
 		return
@@ -769,6 +784,8 @@ func (r *e1Run) escapedPanic() string {
 var _ = time.Second
 
 // e1Probe records lifecycle events (C05); see c05_lifecycle_test.go.
+type mockTEvent = mock.TEvent
+
 type e1Probe struct {
 	r *e1Run
 }
